@@ -380,7 +380,7 @@ func TestC03Lab(t *testing.T) {
 	}
 	Explore("TestC03Lab", rep, runs)
 	if n, _ := rep.Extra["piece_frames"].(int64); n == 0 {
-		core.HarnessError("vacuous: the client never served a block")
+		rep.Vacuous("vacuous: the client never served a block")
 	}
 	rep.Finish()
 }
